@@ -63,7 +63,7 @@ func init() {
 	// text that only LOOKS like an escape sequence, an HTML entity or a network address: inside a
 	// JSON string (or key) all of it is just characters
 	SyntaxLookalikes = append(SyntaxLookalikes,
-		`& < >`, `a&b`, `x<y>z`, `\u0000`, `\ud800`, `\n\t\"`, `\\`, `&amp; &lt; &gt; &quot; &#39;`, `<b>&</b>`, `%s %d %v %!s(MISSING)`,
+		`& < >`, `a&b`, `x<y>z`, `\u0000`, `\ud800`, `a\u0026b \u003c \u003e`, `\u2028\u2029 \u007f \U0001F600`, `\\u0026`, `\n\t\"`, `\\`, `&amp; &lt; &gt; &quot; &#39;`, `<b>&</b>`, `%s %d %v %!s(MISSING)`,
 		`10.1.2.3:27017`, `peer 192.168.0.7:27018 down`, `[::1]:27017`, `[2001:db8::7]:27019`, `mongo-0.svc.cluster.local:27017`, `255.255.255.255:65535 `, `1.2.3.4`, `1.2.3.4:`,
 		"\x1b[31mred\x1b[0m", "bell\x07 vt\x0b ff\x0c del\x7f", "tag\U000E0001 pua\U000F0000 nonchar\ufffe", "\ufeffbom", "mid\ufeffbom", "bom\ufeff",
 	)
